@@ -11,6 +11,9 @@ import (
 
 	"github.com/openkruise/rollouts/api/v1beta1"
 	"github.com/openkruise/rollouts/pkg/trafficrouting/network"
+	custom "github.com/openkruise/rollouts/pkg/trafficrouting/network/customNetworkProvider"
+	"github.com/openkruise/rollouts/pkg/trafficrouting/network/gateway"
+	"github.com/openkruise/rollouts/pkg/trafficrouting/network/ingress"
 	"github.com/openkruise/rollouts/pkg/util/grace"
 	"github.com/openkruise/rollouts/pkg/verifrt"
 	"github.com/openkruise/rollouts/pkg/verifrt/symclient"
@@ -322,4 +325,65 @@ func VerifC03_PatchStableServicePinsBeforeTheFirstBatch() {
 		}
 	}
 	verifrt.Assert(pinnedBefore || patched, "C03.pin.doneOnlyWhenStableServiceSelectsTheStableRevision")
+}
+
+// VerifC03_EveryConfiguredProviderIsDriven: a traffic-routing entry may name several gateways at once (an Ingress and
+// a Gateway API route and custom resources — the webhook accepts any combination).  "Routed" is reported for the step
+// as a whole, so the provider the manager drives must contain one provider for *each* configured kind, and report
+// done only when every one of them is done.  A combination in which one kind is silently left out is a step reported
+// routed while one of the user's gateways still carries the old split.
+func VerifC03_EveryConfiguredProviderIsDriven() {
+	hasIngress, hasGateway, hasCustom := verifrt.Bool("ref.ingress"), verifrt.Bool("ref.gateway"), verifrt.Bool("ref.custom")
+	verifrt.Assume(hasIngress || hasGateway || hasCustom)
+	ref := v1beta1.TrafficRoutingRef{Service: "svc"}
+	if hasIngress {
+		ref.Ingress = &v1beta1.IngressTrafficRouting{Name: "ing"}
+	}
+	if hasGateway {
+		name := "route"
+		ref.Gateway = &v1beta1.GatewayTrafficRouting{HTTPRouteName: &name}
+	}
+	if hasCustom {
+		ref.CustomNetworkRefs = []v1beta1.ObjectRef{{APIVersion: "networking.istio.io/v1alpha3", Kind: "VirtualService", Name: "vs"}}
+	}
+	var events []string
+	mk := func(kind string) *mProvider {
+		return &mProvider{events: &events, ensureDone: verifrt.Bool(kind + ".ensureDone")}
+	}
+	pi, pg, pc := mk("ingress"), mk("gateway"), mk("custom")
+	verifrt.Stub("github.com/openkruise/rollouts/pkg/trafficrouting/network/ingress.NewIngressTrafficRouting", func(c client.Client, conf ingress.Config) (network.NetworkProvider, error) {
+		return pi, nil
+	})
+	verifrt.Stub("github.com/openkruise/rollouts/pkg/trafficrouting/network/gateway.NewGatewayTrafficRouting", func(c client.Client, conf gateway.Config) (network.NetworkProvider, error) {
+		return pg, nil
+	})
+	verifrt.Stub("github.com/openkruise/rollouts/pkg/trafficrouting/network/customNetworkProvider.NewCustomController", func(c client.Client, conf custom.Config) (network.NetworkProvider, error) {
+		return pc, nil
+	})
+	ctx := &TrafficRoutingContext{Key: "Rollout(ns/ro)", Namespace: "ns", ObjectRef: []v1beta1.TrafficRoutingRef{ref}}
+	p, err := newNetworkProvider(&symclient.Client{}, ctx, "svc", "svc-canary")
+	verifrt.Assert(err == nil && p != nil, "C03.providers.built")
+	if err != nil || p == nil {
+		return
+	}
+	contains := func(want *mProvider) bool {
+		if single, ok := p.(*mProvider); ok {
+			return single == want
+		}
+		if comp, ok := p.(network.CompositeController); ok {
+			for _, x := range comp {
+				if mp, ok := x.(*mProvider); ok && mp == want {
+					return true
+				}
+			}
+		}
+		return false
+	}
+	verifrt.Assert(contains(pi) == hasIngress, "C03.providers.ingressDrivenIffConfigured")
+	verifrt.Assert(contains(pg) == hasGateway, "C03.providers.gatewayDrivenIffConfigured")
+	verifrt.Assert(contains(pc) == hasCustom, "C03.providers.customDrivenIffConfigured")
+	weight := "20%"
+	done, err := p.EnsureRoutes(context.TODO(), &v1beta1.TrafficRoutingStrategy{Traffic: &weight})
+	allDone := (!hasIngress || pi.ensureDone) && (!hasGateway || pg.ensureDone) && (!hasCustom || pc.ensureDone)
+	verifrt.Assert(err == nil && done == allDone, "C03.providers.routedOnlyWhenEveryGatewayIs")
 }
